@@ -14,12 +14,12 @@ The model mirrors the code branch by branch, in the order of the statements of t
 ```
 defer cleanup()                      -- stats.duration, stats.completed, wg.Done()
 defer { go closeConn(src); closeConn(dst) }
-src.SetDeadline / dst.SetDeadline    -- failure: log, return
+setConnDeadline(src) / (dst)         -- SetDeadline, on ENOTSUP SetReadDeadline; failure: log, return
 for {
   nr, er := src.Read(buf)
   if nr > 0 { nw, ew := dst.Write(buf[:min(len(buf),nr)]); stats += nw; short write; ew != nil → stat, break }
   if er != nil { stat, break }
-  src.SetDeadline / dst.SetDeadline  -- failure: log, return
+  setConnDeadline(src) / (dst)       -- failure: log, return
 }
 ```
 
@@ -66,22 +66,35 @@ structure WriteRes where
   err : Option Err
 deriving Repr, DecidableEq
 
-/-- result of one `SetDeadline` call.  (The repair planned for C04 — fall back to `SetReadDeadline`
-when the answer is ENOTSUP — adds a constructor here and a case in `arm`; nothing else changes.) -/
+/-- result of one `setConnDeadline(c, t)` call: `c.SetDeadline(t)` succeeds, fails, or answers ENOTSUP
+(an obfs4-wrapped connection), in which case the code falls back to `c.SetReadDeadline(t)`, which in
+turn succeeds or fails (the repair made for C04). -/
 inductive DlRes
   | ok | fail
+  | unsupported (fallbackOk : Bool)
 deriving Repr, DecidableEq
+
+/-- overall result of `setConnDeadline` -/
+def DlRes.succeeds : DlRes → Bool
+  | .ok => true
+  | .fail => false
+  | .unsupported fb => fb
+
+/-- `SetReadDeadline` was used -/
+def DlRes.viaFallback : DlRes → Bool
+  | .unsupported _ => true
+  | _ => false
 
 /-- calls made on the two connections, in order -/
 inductive Ev
-  | dl (onSrc : Bool) (ok : Bool)
+  | dl (onSrc : Bool) (ok : Bool) (fallback : Bool)
   | read (n : Nat) (err : Bool)
   | write (offered nw : Nat) (err : Bool)
 deriving Repr, DecidableEq
 
 /-- did the call succeed?  (a short write counts as a failure: the code turns it into one) -/
 def Ev.ok : Ev → Bool
-  | .dl _ ok => ok
+  | .dl _ ok _ => ok
   | .read _ err => !err
   | .write _ _ err => !err
 
@@ -116,12 +129,12 @@ def popW : List WriteRes → WriteRes × List WriteRes
   | [] => (⟨bufLen, none⟩, [])
   | w :: t => (w, t)
 
-/-- one `c.SetDeadline(…)`; `false` = the call failed (the code logs and returns) -/
+/-- one `setConnDeadline(c, …)`; `false` = it failed (the code logs and returns) -/
 def arm (onSrc : Bool) (ds : List DlRes) : Ev × Bool × List DlRes :=
   let (d, ds') := popDl ds
-  (.dl onSrc (d == .ok), d == .ok, ds')
+  (.dl onSrc d.succeeds d.viaFallback, d.succeeds, ds')
 
-/-- `src.SetDeadline` then `dst.SetDeadline`; stops at the first failure.
+/-- `setConnDeadline(src)` then `setConnDeadline(dst)`; stops at the first failure.
 Result: events, the connection whose call failed, remaining script. -/
 def armBoth (ds : List DlRes) : List Ev × Option Bool × List DlRes :=
   let (e1, ok1, ds1) := arm true ds
